@@ -166,7 +166,12 @@ def run(ctx):
             stats.append(det)
             if not all(x >= 3.0 for x in ratios) or res[-1] > 5e-3:
                 spec_fail.append(("propagator_unrestricted.propagate_free", "field average of norm x walker equals exp(-dt (H - ene0)) up to an O(dt^2) residual", det))
-            elif res_ov[-1] > 5e-3 or not all(res_ov[i] / max(res_ov[i + 1], 1e-300) >= 2.5 for i in range(len(res_ov) - 1) if res_ov[i + 1] > 1e-10):
+            # the overlap residual is a scalar projection of the state residual: its leading dt^2 coefficient can be accidentally small,
+            # so that at the coarse end of the ladder higher orders dominate and a halving gains less than 2.5 although the residual is
+            # far below the state's own (which passed the >= 3 test).  Only a halving that gains too little while the overlap residual is
+            # comparable to the state residual contradicts "O(dt^2)".
+            elif res_ov[-1] > 5e-3 or not all(res_ov[i] / max(res_ov[i + 1], 1e-300) >= 2.5 or res_ov[i] <= 0.5 * res[i]
+                                              for i in range(len(res_ov) - 1) if res_ov[i + 1] > 1e-10):
                 spec_fail.append(("propagator_unrestricted.propagate_free", "field average of the stored overlaps equals the overlap of the averaged state", det))
         except Exception as ex:
             spec_fail.append(("propagator_unrestricted.propagate_free", "quadrature run executes", {"error": repr(ex)[:400]}))
